@@ -7,8 +7,13 @@ PROP = 'C17'
 def run():
     return run_proof_check(
         PROP, ['contracts.c17_http'], ['ak.conn_http', 'ak.mcaller_http'], level='proof', harness='harness.c17',
-        bounded_rule="472 fixed cases (request-argument grid through a 3-layer chain, every clone argument kind) then seeded "
-                     "sequences of <= 6 operations {wrap with prefix/basic/bearer/client auth, add_adapter, clone(None/one/list/"
+        bounded_rule="472 fixed cases (request-argument grid through a 3-layer chain, every clone argument kind), then a grid of "
+                     "316 credentials (27 special ASCII / 2-4-byte utf-8 characters at every offset modulo 3 in login, password, "
+                     "client id, client secret, so that the standard base64 of id:password contains '+', '/', both, and every "
+                     "padding length; bearer tokens with '+/=') x 4 deployment shapes of the authenticating layer (wrapper class in "
+                     "a 3-layer chain, clone(adapter), adapter in a list + caller + clone(list), add_adapter), the Authorization "
+                     "value decoded with the strict standard-alphabet base64 decoder and compared with the configured bytes; then "
+                     "seeded sequences (every second one with its credentials replaced from the grid) of <= 6 operations {wrap with prefix/basic/bearer/client auth, add_adapter, clone(None/one/list/"
                      "tuple), get_conn, request} on a shared root with a stub opener; every pre-existing connection and caller "
                      "is probed again after every operation; non-trivial = >= 2 layers and >= 2 requests",
         checker_note="",
